@@ -6,7 +6,7 @@ Local Open Scope nat_scope.
 
 (* ------------------------------------------------------------------ the simulation relation *)
 Definition ctxrel (h : heap) (c : ctx) (a : actx) : Prop :=
-  ctx_ok h c /\ binds h c = a_binds a /\ (a_empty_batch a = false -> no_phantom (chain h c)).
+  ctx_ok h c /\ binds h c = a_binds a.
 
 Definition tokrel (pool : list ctx) (ct : tokst) (st : stok) : Prop :=
   match ct, st with
@@ -34,7 +34,7 @@ Lemma R_init : R tstate0 sstate0.
 Proof.
   constructor; cbn.
   - reflexivity.
-  - intros i H. assert (i = 0) by lia. subst. repeat split. intros _. constructor.
+  - intros i H. assert (i = 0) by lia. subst. split; [exact I | reflexivity].
   - exists []. reflexivity.
   - constructor; [intros [] | constructor].
   - apply stack0_wf.
@@ -96,17 +96,11 @@ Lemma sctx_rel : forall t a i, R t a -> i < length (t_pool t) -> ctxrel (t_heap 
 Proof. intros t a i HR H. unfold sctx. apply (R_ctx _ _ HR). exact H. Qed.
 
 (* ------------------------------------------------------------------ queries *)
-Definition query_ok (a : sstate) (i : nat) (k : bytes) : Prop := k <> [] \/ a_empty_batch (sctx a i) = false.
-
-Lemma get_sim : forall t a i k, R t a -> i < length (t_pool t) -> query_ok a i k ->
+Lemma get_sim : forall t a i k, R t a -> i < length (t_pool t) ->
   get_value (t_heap t) (nm (t_pool t) i) k = assoc k (a_binds (sctx a i)).
 Proof.
-  intros t a i k HR Hi Q. destruct (sctx_rel t a i HR Hi) as [_ [B P]]. rewrite <- B.
-  apply get_value_assoc. destruct Q as [Q|Q]; [left; exact Q | right; apply P; exact Q].
+  intros t a i k HR Hi. destruct (sctx_rel t a i HR Hi) as [_ B]. rewrite <- B. apply get_value_assoc.
 Qed.
-
-Lemma span_key_nonempty : span_key <> [].
-Proof. vm_compute. discriminate. Qed.
 
 (* ------------------------------------------------------------------ list toolkit *)
 Lemma NoDup_snoc : forall A (l : list A) x, NoDup l -> ~ In x l -> NoDup (l ++ [x]).
@@ -131,8 +125,8 @@ Qed.
 (* ------------------------------------------------------------------ allocation of a new named context *)
 Lemma ctxrel_app : forall ex h c a, ctxrel h c a -> ctxrel (ex ++ h) c a.
 Proof.
-  intros ex h c a [O [B P]]. unfold ctxrel, binds in *. rewrite (chain_app_old ex h c O).
-  repeat split; [apply ctx_ok_app; exact O | exact B | exact P].
+  intros ex h c a [O B]. unfold ctxrel, binds in *. rewrite (chain_app_old ex h c O).
+  split; [apply ctx_ok_app; exact O | exact B].
 Qed.
 
 Lemma R_alloc : forall t a ex j ac last,
